@@ -466,6 +466,8 @@ def run(ctx):
     from . import c14
     from .. import cli
     f, specs, groups = cli.parse_cli(m)
+    from . import c01
+    c01.r01b(ctx)               # trimming an ordered list twice (prefix and suffix overlapping) reports unequal lists as equal
     from . import c03
     c03.r03a(ctx, only=("edits-only",))   # a compound edit's cost counts every sub-edit its script lists (else unequal lists can cost 0)
     c14.r14d(ctx, f, specs)     # the command compares the two trees it loaded (no CLI-only substitution or transformation)
